@@ -211,7 +211,12 @@ func GenPlan(t *rapid.T, profile string, k Knobs) *Plan {
 					case 1:
 						// cancel(); Start(newCtx) back to back, without waiting for the old run to wind down
 						sa.NoWait, backToBack = true, true
-						sa.ThenStart = rapid.Bool().Draw(t, "then_start")
+						switch rapid.IntRange(0, 2).Draw(t, "then") {
+						case 0:
+							sa.ThenStart = true
+						case 1:
+							sa.ThenStop, backToBack = true, false
+						}
 					}
 				}
 				p.Timeline = append(p.Timeline, sa)
@@ -273,6 +278,13 @@ func GenPlan(t *rapid.T, profile string, k Knobs) *Plan {
 	}
 	if rapid.IntRange(0, 2).Draw(t, "yields_on") == 0 {
 		p.Yields = rapid.SliceOfN(rapid.SampledFrom([]uint8{0, 0, 1, 1, 2, 3}), 1, 8).Draw(t, "yields")
+	}
+	for _, a := range p.Timeline {
+		if a.Kind == ActCancelCtx && a.NoWait && len(p.Yields) == 0 && rapid.Bool().Draw(t, "yields_for_cancel") {
+			// the cancellation wakes the library's own goroutine while the same caller goes on into Stop or
+			// Start: whether the two overlap is a matter of where the processor is yielded
+			p.Yields = rapid.SliceOfN(rapid.SampledFrom([]uint8{1, 1, 2, 0}), 1, 5).Draw(t, "yields_c")
+		}
 	}
 	if k.Faults {
 		nf := rapid.IntRange(0, 4).Draw(t, "nfaults")
